@@ -112,6 +112,32 @@ CLAIMED = {
         "note": "monotonic input assumed (as the property states); floats as reals; json modelled structurally in the symbolic run and "
                 "real json in the replay; sx engine/shim and reference model trusted",
     },
+    "C15": {
+        "category": "model_checking",
+        "text": "(a) Over every ASCII string of <=3 (4) symbolic characters the real _validate_element_symbol accepts exactly [A-Z][a-z0-9_]* and the "
+                "real tokenizer scans exactly such a string as one element identifier whatever follows (longest match: L, La, Ls stay distinct). "
+                "(b) Every history of 2 (3) operations out of 11 kinds (register valid / second / inconsistent / duplicate-symbol / invalid-symbol "
+                "definitions with the private flag, remove_elements, reset in its three flag combinations, Resistor.set_default_values with a "
+                "symbolic value, reset_default_parameter_values), followed by reset() and a fresh registration, runs on the real process-global "
+                "registry; after every step the get_elements views, the built-in classes/definitions/defaults and the parser's acceptance of "
+                "registered vs unregistered symbols are compared with a dictionary model and the import-time snapshot.",
+        "design_ref": "DESIGN.md section 4, C15",
+        "note": "user classes are small resistor-like elements; registry restored between paths by direct state restoration; re-registering a "
+                "built-in class under a new symbol is outside",
+    },
+    "C16": {
+        "category": "other",
+        "text": "Tree shapes, element types (incl. the container element with nested sub-circuits), labels and fixed flags are enumerated by solver-"
+                "driven choices and every parameter carries its own symbolic value acting as a label of its element. The real identifier "
+                "generation, get_element_name, validate_circuit, generate_fit_identifiers, _to_lmfit/_from_lmfit, _extract_parameters (also with "
+                "user constraint variables named like identifiers), to_parameters_dataframe and Circuit.to_sympy run on it; z3 decides whether "
+                "identifiers can fail to be a bijection / gap-free, and whether any value reported under a name can be anything but the value of "
+                "the element that name denotes (for to_sympy: evaluating the expression with each variable bound to its element's value must "
+                "give the numeric impedance).",
+        "design_ref": "DESIGN.md section 4, C16",
+        "note": "lmfit.Parameters/MinimizerResult and pandas.DataFrame replaced by name->value stand-ins; <=3 (4) elements; one known finding "
+                "(variable naming of equally labelled elements of different types)",
+    },
 }
 
 NOT_APPLICABLE = {
